@@ -228,6 +228,22 @@ Theorem C13_marker_removes_only_bare_star : forall render : name -> text,
 Proof. exact sub_marker_inv_text. Qed.
 Print Assumptions C13_marker_removes_only_bare_star.
 
+(* the text level meets the call level: the argument list written into the generated
+   body, read back, is the invocation inv_of_params of the built function's own
+   signature - the object C13_forward and the call theorems reason about *)
+Theorem C13_body_text_is_forwarding : forall (render : name -> text) b,
+  (forall n, ident (render n) = true) ->
+  read_arglist (inv_text render b) = Some (inv_items render (inv_of_params (sg_params (fb_sig b)))).
+Proof. exact body_text_is_forwarding. Qed.
+Print Assumptions C13_body_text_is_forwarding.
+
+Theorem C13_def_text_is_signature : forall (render : name -> text) b,
+  (forall n, ident (render n) = true) ->
+  read_arglist (strip_ends (sig_text render b)) = Some (sig_items render b) /\
+  map p_name (sg_params (fb_sig b)) = all_names b.
+Proof. exact def_text_is_signature. Qed.
+Print Assumptions C13_def_text_is_signature.
+
 Example C13_ex_render_ident : forall n, ident (gen_render n) = true.
 Proof. exact gen_render_ident. Qed.
 
